@@ -96,4 +96,10 @@ def LeavesOnly (n : Nat) (L : Locals) (p : PlaceId) (t : Ty) : Prop :=
 def leafWires (L : Locals) (p : PlaceId) (t : Ty) : List Wire :=
   (places p t).filterMap L
 
+/-- helper for concrete examples: the call succeeded and its result satisfies `f` -/
+def okAnd {ε α : Type} (r : Except ε α) (f : α → Bool) : Bool :=
+  match r with
+  | .ok a => f a
+  | .error _ => false
+
 end GuppyVerif.Wiring
